@@ -568,7 +568,7 @@ fn sort_case<T: Key>(cx: &mut Cx, c: &Case, desc: bool, f: &mut dyn FnMut(&mut V
             if small {
                 let w = any_wide(&[&input, &data]);
                 cx.ev(json!({"op": "sort", "kt": T::kt(w), "ord": ord, "ok": ok, "shape": c.shape, "dom": c.dom,
-                    "in": seq_json(&input, w), "out": seq_json(&data, w)}));
+                    "hi32": hi32, "in": seq_json(&input, w), "out": seq_json(&data, w)}));
             } else {
                 let inv = if desc { inversions(&data, |a, b| a < b) } else { inversions(&data, |a, b| a > b) };
                 cx.ev(json!({"op": "sort_big", "ok": ok, "ord": ord, "what": "keys", "shape": c.shape, "dom": c.dom,
